@@ -394,5 +394,127 @@ func genRouteSites() ([]byte, error) {
 		}
 		fmt.Fprintf(&b, "Definition %s : ha_group_compared := [%s].\n", u.def, strings.Join(items, "; "))
 	}
+	facts, err := muxerHandleFacts()
+	if err != nil {
+		return nil, err
+	}
+	b.WriteString("\n(* pkg/util/vhost/vhost.go Muxer.handle: how often it looks a listener up, where it sends the connection, against which\n   listener it checks the credentials, and what it does when the hand-over fails *)\n")
+	b.WriteString("Definition muxer_handle_facts : list (string * Z) := [\n")
+	for i, f := range facts {
+		sep := ";"
+		if i == len(facts)-1 {
+			sep = ""
+		}
+		fmt.Fprintf(&b, "  (%s, %d%%Z)%s\n", tx.CoqString(f.k), f.v, sep)
+	}
+	b.WriteString("].\n")
 	return b.Bytes(), nil
+}
+
+type mfact struct {
+	k string
+	v int
+}
+
+func muxerHandleFacts() ([]mfact, error) {
+	rel := "pkg/util/vhost/vhost.go"
+	fset := token.NewFileSet()
+	f, err := parser.ParseFile(fset, filepath.Join(tx.Repo, rel), nil, 0)
+	if err != nil {
+		return nil, err
+	}
+	var fd *ast.FuncDecl
+	for _, d := range f.Decls {
+		if x, ok := d.(*ast.FuncDecl); ok && x.Name.Name == "handle" && x.Recv != nil && strings.Contains(srcFull(fset, x.Recv.List[0].Type), "Muxer") {
+			fd = x
+		}
+	}
+	if fd == nil || fd.Body == nil {
+		return nil, fmt.Errorf("%s: Muxer.handle not found", rel)
+	}
+	lookups, sends, sendsOnVar, otherSends, checks, checksOnVar, failureCloses := 0, 0, 0, 0, 0, 0, 0
+	lookupVar := ""
+	ast.Inspect(fd.Body, func(n ast.Node) bool {
+		switch x := n.(type) {
+		case *ast.AssignStmt:
+			if len(x.Rhs) == 1 {
+				if ce, ok := x.Rhs[0].(*ast.CallExpr); ok {
+					if se, ok := ce.Fun.(*ast.SelectorExpr); ok && se.Sel.Name == "getListener" && len(x.Lhs) > 0 && lookupVar == "" {
+						lookupVar = exprName(x.Lhs[0])
+					}
+				}
+			}
+		case *ast.CallExpr:
+			if se, ok := x.Fun.(*ast.SelectorExpr); ok {
+				switch se.Sel.Name {
+				case "getListener":
+					lookups++
+				case "checkAuth":
+					checks++
+					args := ""
+					for _, a := range x.Args {
+						args += srcFull(fset, a) + ","
+					}
+					if lookupVar != "" && strings.Contains(args, lookupVar+".username,") && strings.Contains(args, lookupVar+".password,") {
+						checksOnVar++
+					}
+				}
+			}
+		case *ast.SendStmt:
+			ch := srcFull(fset, x.Chan)
+			if strings.HasSuffix(ch, ".accept") {
+				sends++
+				if lookupVar != "" && ch == lookupVar+".accept" {
+					sendsOnVar++
+				}
+			} else {
+				otherSends++
+			}
+		}
+		return true
+	})
+	// the statement right after the hand-over: `if err != nil { … c.Close() … }` without another lookup or send
+	stmts := fd.Body.List
+	for i, st := range stmts {
+		as, ok := st.(*ast.AssignStmt)
+		if !ok || len(as.Rhs) != 1 {
+			continue
+		}
+		hasSend := false
+		ast.Inspect(as.Rhs[0], func(n ast.Node) bool {
+			if _, ok := n.(*ast.SendStmt); ok {
+				hasSend = true
+			}
+			return true
+		})
+		if !hasSend || i+1 >= len(stmts) {
+			continue
+		}
+		is, ok := stmts[i+1].(*ast.IfStmt)
+		if !ok || srcFull(fset, is.Cond) != "err != nil" || is.Else != nil {
+			continue
+		}
+		closes, bad := false, false
+		ast.Inspect(is.Body, func(n ast.Node) bool {
+			switch x := n.(type) {
+			case *ast.SendStmt:
+				bad = true
+			case *ast.CallExpr:
+				if se, ok := x.Fun.(*ast.SelectorExpr); ok {
+					if se.Sel.Name == "getListener" {
+						bad = true
+					}
+					if se.Sel.Name == "Close" && srcFull(fset, se.X) == "c" {
+						closes = true
+					}
+				}
+			}
+			return true
+		})
+		if closes && !bad && i+2 == len(stmts) {
+			failureCloses = 1
+		}
+	}
+	return []mfact{{"lookups", lookups}, {"accept_sends", sends}, {"accept_sends_on_lookup_result", sendsOnVar}, {"other_sends", otherSends},
+		{"credential_checks", checks}, {"credential_checks_on_lookup_result", checksOnVar}, {"handover_failure_closes_and_ends", failureCloses}}, nil
 }
